@@ -11,13 +11,34 @@ namespace Primaite.FileSystem
 
 /-! ### Inv under the API operations -/
 
-/-- The side condition of an operation: only `move_file` has one (the moved file's uuid is not already in the
-destination folder — cross-folder uuid disjointness is not part of `Inv`). -/
+/-- The side condition of an operation: only a `move_file` that really moves has one (the moved file's uuid is not already
+in the destination folder — cross-folder uuid disjointness is not part of `Inv`); a move within one folder or onto a live
+namesake, being a no-op, has none. -/
 def AnyOp.ok (s : State) : AnyOp → Prop
   | .api (.moveFile F x G) => MoveFresh s F x G
   | _ => True
 
-/-- Every API operation keeps `Inv` (for `move_file`: given that the moved uuid is new to the destination). -/
+/-- A `move_file` within one folder meets the side condition by itself (it is a no-op: the folder has a live file of
+that name — the file itself), and so does a move of a file that does not exist. -/
+theorem C15_api_move_within_folder_ok (s : State) (F x : Name) : MoveFresh s F x F := by
+  intro f hf hnone
+  exfalso
+  unfold getFile at hf
+  cases hsrc : getFolder s F with
+  | none => rw [hsrc] at hf; simp at hf
+  | some src =>
+    rw [hsrc] at hf
+    simp only at hf
+    have hdst : (getOrCreateFolder s F).2 = src := by unfold getOrCreateFolder; rw [hsrc]
+    rw [hdst, (getFile_live hf).2, hf] at hnone
+    simp at hnone
+
+theorem C15_api_move_missing_ok (s : State) (F x G : Name) (h : getFile s F x = none) : MoveFresh s F x G := by
+  intro f hf; rw [h] at hf; simp at hf
+
+/-- Every API operation keeps `Inv` (for `move_file`: given that the moved uuid is new to the destination).
+(Round 3: `Props/C15Disjoint.lean` proves that side condition in every reachable state — `C15_inv2_api_step`,
+`C15_any_inv_reachable_full` are the unconditional forms.) -/
 theorem C15_api_inv_step_partial {s : State} (h : Inv s) (op : ApiOp) (hok : AnyOp.ok s (.api op)) : Inv (stepApi s op).1 := by
   cases op with
   | createFile F x force => exact inv_apiCreateFile h F x force
@@ -64,7 +85,7 @@ example :
         fun g => (g.name, g.files.map File.id, g.deletedFiles.map File.id)) =
       [("root", [], []), ("fa", [6], [2]), ("fb", [], [4]), ("fc", [5], [])] := by
   refine ⟨⟨trivial, trivial, trivial, trivial, ?_, trivial⟩, by decide⟩
-  intro f _ a ha
+  intro f _ _ a ha
   have e1 : (getOrCreateFolder (runAny (init none) exOps4).1 "fc").2.files = [] := by decide
   have e2 : (getOrCreateFolder (runAny (init none) exOps4).1 "fc").2.deletedFiles = [] := by decide
   have ha' : a ∈ (getOrCreateFolder (runAny (init none) exOps4).1 "fc").2.files ∨
